@@ -9,6 +9,7 @@
   correspondence of checks/c11.py (all sentences up to N tokens and their single-token edits).
 -/
 import Cpf.Lemmas.Recog
+import Cpf.Lemmas.Fuel
 import Cpf.Query.Listener
 import Cpf.Generated.Grammar
 
@@ -41,12 +42,65 @@ theorem C11_accept_iff (g : Grammar) (s : String) (ts : List Token) :
    fun h => let ⟨f0, hf⟩ := C11_accept_complete g s ts h; ⟨f0, hf f0 (Nat.le_refl _)⟩⟩
 
 /-- The full statement for the fuel the driver actually uses. Its completeness half needs a bound on
-    derivation height in terms of sentence length (true for grammars without epsilon or unit cycles); that
-    bound is not proved here, so the claim for the *fixed* fuel is the `_partial` theorem below and
-    the gap is covered by the exhaustive correspondence against an independent Earley recogniser. -/
+    derivation height in terms of sentence length (true for grammars without epsilon or unit cycles); the bound
+    is `Cpf.Lemmas.Fuel.parse_complete_bounded`, instantiated for the regenerated grammar in `C11_full_proved`. -/
 def C11_full : Prop :=
   ∀ ts : List Token, Derives Generated.grammar (.nt Generated.startRule) ts →
     accepts Generated.grammar (fuelFor ts) Generated.startRule ts = true
+
+/-- The regenerated grammar, with the two hint tables g4gen computes for it, satisfies the checkable condition of
+    `Cpf.Lemmas.Fuel`: no loop body can be empty, the token lower bounds are consistent, and the ranks decrease
+    along every expansion that consumes nothing (so the grammar has no cycle that consumes no token). -/
+theorem C11_fuel_tables_wf :
+    wfB 24 Generated.grammar Generated.minLenTable Generated.rankTable = true := by decide
+
+/-- **C11 (completeness for the fuel the driver uses)**: every sentence of the regenerated grammar is accepted by
+    the model with fuel `fuelFor ts = 24·(|ts| + 2)`. -/
+theorem C11_full_proved : C11_full := by
+  intro ts h
+  have hw := wf_of_wfB C11_fuel_tables_wf
+  have hr : tabGet Generated.rankTable Generated.startRule ≤ 48 := by decide
+  obtain ⟨forest, hm, _⟩ := parse_complete_bounded hw h rfl (fuelFor ts) (by simp only [rank, fuelFor]; omega) []
+  simp only [accepts, List.any_eq_true]
+  exact ⟨(forest, []), by simpa using hm, by simp⟩
+
+/-- accepted by the driver's model ⇔ grammatical -/
+theorem C11_accept_iff_fixed_fuel (ts : List Token) :
+    accepts Generated.grammar (fuelFor ts) Generated.startRule ts = true ↔ Derives Generated.grammar (.nt Generated.startRule) ts :=
+  ⟨fun h => C11_accept_sound _ _ _ _ h, fun h => C11_full_proved ts h⟩
+
+/-- every sentence gets a parse tree from the model's `ParseQuery` (it is not answered with "syntax error") -/
+theorem C11_sentence_has_tree (ts : List Token) (h : Derives Generated.grammar (.nt Generated.startRule) ts) :
+    ∃ tree, (parsesOf Generated.grammar (fuelFor ts) Generated.startRule ts).head? = some tree := by
+  have hw := wf_of_wfB C11_fuel_tables_wf
+  have hr : tabGet Generated.rankTable Generated.startRule ≤ 48 := by decide
+  obtain ⟨forest, hm, _⟩ := parse_complete_bounded hw h rfl (fuelFor ts) (by simp only [rank, fuelFor]; omega) []
+  have hm' : (forest, []) ∈ parse Generated.grammar (fuelFor ts) (.nt Generated.startRule) ts := by simpa using hm
+  obtain ⟨f', hf⟩ : ∃ f', fuelFor ts = f' + 1 := ⟨fuelFor ts - 1, by simp only [fuelFor]; omega⟩
+  have hmem : ∃ t, t ∈ parsesOf Generated.grammar (fuelFor ts) Generated.startRule ts := by
+    rw [hf] at hm'
+    simp only [parse] at hm'
+    cases hl : lookup Generated.grammar Generated.startRule with
+    | none => simp [hl] at hm'
+    | some rhs =>
+        simp only [hl, List.mem_map] at hm'
+        obtain ⟨p, hp, hpe⟩ := hm'
+        refine ⟨PT.node Generated.startRule p.1, ?_⟩
+        simp only [parsesOf, List.mem_filterMap]
+        refine ⟨([PT.node Generated.startRule p.1], []), ?_, rfl⟩
+        rw [hf]
+        simp only [parse, hl, List.mem_map]
+        refine ⟨p, hp, ?_⟩
+        have := congrArg Prod.snd hpe
+        simp at this
+        simp [this]
+  obtain ⟨t, ht⟩ := hmem
+  cases hh : (parsesOf Generated.grammar (fuelFor ts) Generated.startRule ts).head? with
+  | some tree => exact ⟨tree, rfl⟩
+  | none =>
+      rw [List.head?_eq_none_iff] at hh
+      rw [hh] at ht
+      simp at ht
 
 /-- The model's `ParseQuery` never returns a structure for an input that is not a sentence:
     anything that is not a sentence gets a diagnostic (no results). -/
